@@ -339,6 +339,42 @@ func targets() []*target {
 			},
 			params: []string{"(str : bytes)"}, result: "option (bytes * bytes * bool)", final: "Some (firstLine, restLines, eol)"},
 
+		// ---- the skeleton of printImpl after the blank-line rule (C02, C04-C06, C14): which part printers run,
+		// in what order, under which mode bit / flag; the level colours; ONE printOut of pc.Bytes() after End.
+		// The part printers are parameters over the context pc (LayoutRef.pcs)
+		{pkg: slogPkg, recv: "Entry", fn: "printImpl", coq: "print_impl", file: "Layout", strict: true, fallback: "@LayoutRef.print_impl_fallback",
+			comment: "(the statements after the blank-line rule; returns (deliveries, context); None = panic)", panicT: "None", retfmt: "Some (%s)",
+			effects: []string{"pc", "tr_"},
+			tymap:   map[string]string{"[]byte": "bytes", "error": "E", "*PrintCtx": "pcs R", "color.Color": "Z", "[]color.Color": "list Z"},
+			fields:  map[string]string{"noColor": "pc_noColor", "lvl": "pc_lvl", "clr": "pc_clr", "bg": "pc_bg"},
+			setters: map[string]string{"clr": "set_clr", "bg": "set_bg"}, globals: []string{"pc_noColor", "pc_lvl", "pc_clr", "pc_bg", "set_clr", "set_bg"},
+			calls: map[string]callSpec{
+				"*PrintCtx.Begin":                   {state: "(f_begin %r, tr_)"},
+				"*Entry.printTimestamp":             {state: "(f_timestamp %0, tr_)"},
+				"*Entry.printLoggerName":            {state: "(f_name %0, tr_)"},
+				"*Entry.printSeverity":              {state: "(f_severity %0, tr_)"},
+				"*Entry.printMsg":                   {state: "(f_msg %0, tr_)"},
+				"*Entry.printFirstLineOfMsg":        {state: "(f_first %0, tr_)"},
+				"serializeAttrs":                    {state: "(let '(h_, p_) := f_attrs %0 in (h_, p_, tr_))", lazy: true},
+				"IsAnyBitsSet":                      {pure: "negb (Z.land g_flags %0 =? 0)"},
+				"*Entry.printPC":                    {state: "(f_pc %0, tr_)"},
+				"*Entry.printRestLinesOfMsg":        {state: "(f_rest %0, tr_)"},
+				"*PrintCtx.appendErrorAfterPrinted": {state: "(f_errdump %r %0, tr_)"},
+				"*PrintCtx.End":                     {state: "(f_end %r %0, tr_)"},
+				"*PrintCtx.Bytes":                   {pure: "f_bytes %r"},
+				"*Entry.printOut":                   {ev: "d_printout %0 %1"},
+			},
+			from: func(stmts []ast.Stmt) []ast.Stmt {
+				if len(stmts) > 1 && containsText(stmts[0], "AlwaysLevel") {
+					return stmts[1:]
+				}
+				return nil
+			},
+			params: []string{"{R E D : Type}", "(f_begin f_timestamp f_name f_severity f_msg f_first f_pc f_rest : pcs R -> pcs R)",
+				"(f_attrs : pcs R -> E * pcs R)", "(f_errdump : pcs R -> E -> pcs R)", "(f_end : pcs R -> bool -> pcs R)", "(f_bytes : pcs R -> bytes)",
+				"(d_printout : Z -> bytes -> D)", "(m_mLevelColors : list (Z * list Z))", "(g_flags : Z)", "(pc : pcs R)", "(tr_ : list D)"},
+			result: "option (list D * pcs R)", final: "Some (tr_, pc)"},
+
 		// ---- the logger tree (C10): Entry.newChildLogger and the inheritance at the head of newentry ----
 		// a *Entry is a reference (eref); the arguments are gargs (string / option / handler / other: the type
 		// assertions are oracles); the random name and newentry itself are parameters: the theorem shows WHICH
@@ -732,6 +768,7 @@ var genFiles = [][2]string{
 	{"Termination", "Require Import Verif.Model.Base Verif.Model.Decision Verif.Model.GoSem Verif.Model.Terminate Verif.Model.TermRef."},
 	{"Context", "Require Import Verif.Model.Base Verif.Model.Decision Verif.Model.GoSem Verif.Model.Attrs Verif.Model.PcRef."},
 	{"Colors", "Require Import Verif.Model.Base Verif.Model.Decision Verif.Model.Dec Verif.Model.GoSem Verif.Model.ColorRef."},
+	{"Layout", "Require Import Verif.Model.Base Verif.Model.Decision Verif.Model.GoSem Verif.Model.LayoutRef."},
 	{"LevelNames", "Require Import Verif.Model.Base Verif.Model.Decision Verif.Model.Dec Verif.Model.GoSem Verif.Model.LevelRef."},
 }
 
